@@ -225,7 +225,27 @@ func (this *DefaultInputBitStream) readFromInputStream(count int) (int, error) {
 	}
 
 	this.read += (int64(this.position << 3))
-	size, err := this.is.Read(this.buffer[0:count])
+	size := 0
+	var err error
+
+	// The underlying stream may return fewer bytes than requested (pipe, socket, ...).
+	// Fill the buffer until the request is satisfied or the stream fails/ends:
+	// a partially filled 64 bit word must only occur at the end of the stream.
+	for emptyReads := 0; size < count && err == nil; {
+		var n int
+		n, err = this.is.Read(this.buffer[size:count])
+
+		if n > 0 {
+			size += n
+			emptyReads = 0
+		} else if err == nil {
+			// Nothing happened (see io.Reader), do not spin forever
+			if emptyReads++; emptyReads >= 100 {
+				err = io.ErrNoProgress
+			}
+		}
+	}
+
 	this.position = 0
 
 	if size <= 0 {
